@@ -270,6 +270,38 @@ func c14HostDial(h Handle, id uint32) (Reply, error) {
 	return Reply{}, errors.New("unknown handle")
 }
 
+// c14HostDialBlob: host dials id and asks the brokered server for a 5 MiB response.
+func c14HostDialBlob(h Handle, id uint32) error {
+	var bh Handle
+	switch hh := h.(type) {
+	case *grpcHandle:
+		cc, err := hh.broker.Dial(id)
+		if err != nil {
+			return err
+		}
+		defer cc.Close()
+		bh = &grpcHandle{cc: cc, service: "verif.Brokered"}
+	case *rpcHandle:
+		conn, err := hh.mux.Dial(id)
+		if err != nil {
+			return err
+		}
+		rc := rpc.NewClient(conn)
+		defer rc.Close()
+		bh = &rpcHandle{c: rc}
+	default:
+		return errors.New("unknown handle")
+	}
+	big, err := bh.DoT(Cmd{Op: "blob", N: 5 << 20}, 60*time.Second)
+	if err != nil {
+		return err
+	}
+	if len(big.B) != 5<<20 {
+		return fmt.Errorf("got %d bytes", len(big.B))
+	}
+	return nil
+}
+
 // freshBrokerID hands out broker ids for the harness's own establishments. They start far above
 // anything NextId returns, so they never collide with the ids the library allocates itself (the
 // net/rpc Dispense path uses the plugin broker's NextId) — distinct ids are a documented precondition.
@@ -303,7 +335,7 @@ func c14EndToEnd(cl *plugin.Client, wantProto string) (step string, err error) {
 	// plugin -> host callback
 	id := freshBrokerID()
 	c14HostAccept(h, id)
-	rr, err := h.DoT(Cmd{Op: "broker_dial", ID: id}, 30*time.Second)
+	rr, err := h.DoT(Cmd{Op: "broker_dial", ID: id, S: "blob"}, 90*time.Second)
 	if err != nil {
 		return "brokered callback (plugin dials host)", err
 	}
@@ -321,6 +353,14 @@ func c14EndToEnd(cl *plugin.Client, wantProto string) (step string, err error) {
 	}
 	if r2.Tag.Broker != id2 || r2.Tag.Side != "plugin" {
 		return "brokered connection (host dials plugin)", fmt.Errorf("answered by %+v, expected the plugin server accepted on id %d", r2.Tag, id2)
+	}
+	// large responses over a brokered connection as well
+	id3 := freshBrokerID()
+	if _, err := h.DoT(Cmd{Op: "broker_accept", ID: id3}, 20*time.Second); err != nil {
+		return "brokered connection (host dials plugin)", err
+	}
+	if err := c14HostDialBlob(h, id3); err != nil {
+		return "5 MiB response over a brokered connection (host dials plugin)", err
 	}
 	if err := cp.Ping(); err != nil {
 		return "ping", err
